@@ -51,3 +51,10 @@ check('C01', 'fault_enumeration', 'differential property-based testing (agent-fr
       'program must not hang.',
       'Fault points are drawn from every function/method/property of 20 agent modules reached by the case; the entry '
       'function itself is excluded. Internal faults are Exception subclasses.')
+check('C11', 'exploration', 'exhaustive enumeration of the argument table (thorough) / sampling (quick) + property-based responses, behavioural oracle',
+      'Every row of the 2.49M-row argument table is installed from a protobuf response and its effects (snapshot, log, '
+      'metrics, span; on the line or on the named method; condition, fire count, watches) are observed by driving hits and '
+      'compared with the expectation derived from the statement; generated responses add same-location groups, '
+      'uninterpretable members at any position and registration in code.',
+      'Quick tier samples the table (every 997th row + Hypothesis draws); the thorough tier enumerates it completely over 16 '
+      'shards (exhaustive: true).')
